@@ -58,7 +58,7 @@ func c03Scens(quick bool) []*fatScen {
 		}
 		// fill to ENOSPC with many small files and with directories, then keep going
 		fill := &fatScen{Name: "fillsmall", Cfg: c, Oracle: "range", Depth: 3, Letters: []fsOp{
-			{Kind: "fillsmall", Path: "s"}, {Kind: "filldirs", Path: "D"}, {Kind: "write", Path: "big.bin", Off: "0", Len: "p70"}, {Kind: "write", Path: "big.bin", Off: "eof", Len: "p40"},
+			{Kind: "fillsmall", Path: "s"}, {Kind: "filldirs", Path: "D"}, {Kind: "fillappend", Path: "grow.bin"}, {Kind: "write", Path: "big.bin", Off: "0", Len: "p70"}, {Kind: "write", Path: "big.bin", Off: "eof", Len: "p40"},
 			{Kind: "mkdir", Path: "x/y"}, {Kind: "remove", Path: "s0003"}, {Kind: "create", Path: "one-more-long-named-file.txt"}, {Kind: "reopen"}}}
 		ss = append(ss, fill)
 		out = append(out, ss...)
